@@ -129,6 +129,9 @@ func checkC11(c *Ctx) {
 			} else {
 				ok, w = bc.proveIndex(in, base, idx)
 				if !ok {
+					if ok2, w2 := inv.stridedIndex(bc, fn, in, base, idx); ok2 {
+						ok, w = true, w2
+					}
 					if ok2, w2 := inv.scaledIndex(bc, fn, in, base, idx); ok2 {
 						ok, w = true, w2
 					}
@@ -1196,6 +1199,41 @@ func (iv *c11Inv) scaledIndex(bc *boundsCtx, fn *ssa.Function, in ssa.Instructio
 			if iv.oddGuard(tn, a) {
 				return true, fmt.Sprintf("index %d*i+%d with i < len/%d and len %% %d == %d guaranteed by the constructor of %s", a, b, a, a, a-1, tn)
 			}
+		}
+	}
+	return false, ""
+}
+
+// stridedIndex: index i+b of container v inside `for i := i0; i < len(v); i += 2` with i0 odd: i stays odd; when the
+// wrapper's constructor guarantees an odd len(v), i < len(v) means i <= len(v)-2, so i+1 is in range too.
+func (iv *c11Inv) stridedIndex(bc *boundsCtx, fn *ssa.Function, in ssa.Instruction, base, idx ssa.Value) (bool, string) {
+	a, iv2, b, ok := linearForm(idx)
+	if !ok || a != 1 || b < 0 || b > 1 {
+		return false, ""
+	}
+	ph, ok := iv2.(*ssa.Phi)
+	if !ok {
+		return false, ""
+	}
+	ls, _ := findCountedLoopStep(ph.Block())
+	if ls == nil || ls.phi != ph || ls.step != 2 || ls.useIdx != ssa.Value(ph) {
+		return false, ""
+	}
+	i0, isC := constInt(ls.initTerm)
+	if !isC || i0 < 0 || i0%2 != 1 {
+		return false, ""
+	}
+	call, isLen := ls.bound.(*ssa.Call)
+	if !isLen || !isBuiltin(call, "len") || call.Call.Args[0] != base {
+		return false, ""
+	}
+	// the access is inside the loop body
+	if !(ls.body == in.Block() || ls.body.Dominates(in.Block())) {
+		return false, ""
+	}
+	if top := topFn(fn); top.Signature.Recv() != nil {
+		if nt := namedOf(top.Signature.Recv().Type()); nt != nil && iv.oddGuard(nt.Obj().Name(), 2) {
+			return true, fmt.Sprintf("index i+%d with i odd (from %d, step 2), i < len and len odd (guaranteed by the constructor of %s): i <= len-2", b, i0, nt.Obj().Name())
 		}
 	}
 	return false, ""
